@@ -26,3 +26,9 @@ Theorem source_inherit_is_tree : forall o sels i d res m,
      (us = a \/ (i = true /\ proper_ancestor a us) \/ (d = true /\ proper_ancestor us a))).
 Proof. exact src_inherit_is_tree. Qed.
 Print Assumptions source_inherit_is_tree.
+
+(* the text asks versioning.new_version to change nothing but object_marking_refs / granular_markings
+   (src_nv_changed_keys: keyword names of the new_version calls in granular_markings.py, object_markings.py) *)
+Theorem source_changes_only_marking_keys : forall k, In k src_nv_changed_keys -> In k marking_keys.
+Proof. exact src_changes_only_marking_keys. Qed.
+Print Assumptions source_changes_only_marking_keys.
